@@ -79,6 +79,9 @@ type Property struct {
 	NeedsCorpus bool
 	// NeedsSched: only runs in the instrumented build.
 	NeedsSched bool
+	// RaceFrom, when set, is the case index from which on cases must be run
+	// by the binary built with -race (C18's race arm).
+	RaceFrom func(ctx *Ctx) int
 	// FreshProcessReplay: violations are confirmed and shrunk in fresh child
 	// processes (they may consist of a one-time write to process-wide state).
 	FreshProcessReplay bool
@@ -153,3 +156,6 @@ func min(a, b int) int {
 	}
 	return b
 }
+
+// RaceEnabled reports whether this binary was built with -race.
+func RaceEnabled() bool { return raceEnabled }
